@@ -21,5 +21,9 @@ def run(ctx, R):
     try:
         from rules import v1model
         v1model.c12_v1(ctx, R)
+        v1model.v1_no_panic(ctx, R, 'C12.V1')
+        # the FromStr entry points report exactly the error try_from(&str) reports for the same text
+        from rules import C16 as C16mod
+        C16mod.fromstr_delegation(ctx, R, 'C12.F')
     except ImportError:
         R.assumptions.append('C12.V1 (v1 role attribution) not decided by this build')
